@@ -15,7 +15,7 @@ Not decided: that s1 = c - s2*h is computed correctly by the NTT for all inputs 
 from fv.absint import St, Pt, Ag, I, Sq, En, Md, Fl
 from fv.oracle import SPEC, Q, derived, pqclean
 from .common import Session, record_obligations
-from . import c03, c14, effects, skeleton
+from . import signalg, c03, c14, effects, skeleton
 
 LEVEL = "other"
 TECHNIQUE = "CTFE/abstract evaluation of the parameter table vs spec and PQClean; predicate extraction from verify's return value; ingredient labels; effect analysis"
@@ -183,6 +183,8 @@ def run(R):
         # (3) effects
         inst = S.find(f"falcon::verify::<{N}>")
         effects.cone_is_deterministic(R, prog, [inst.id], "C02-effects", vsite, floor_instances=150)
+    # s1 = c - s2 h as exact residue identities on the transform inputs/outputs
+    signalg.clause_verify(R, "C02-alg")
     # c = HashToPoint(salt || m): the clauses of C14 are shared rule instances
     S2 = Session()
     c14.core(R, S2, "C02-hash")
